@@ -6,6 +6,7 @@ from collections import OrderedDict, defaultdict, deque
 import optree
 from hypothesis import strategies as st
 
+from vlib import universe as U
 from vlib import compare, gen, model, runner
 
 
@@ -23,6 +24,14 @@ def same_spec(ctx, tag, got, want):
     if got.none_is_leaf != want.none_is_leaf:
         ctx.fail(f'{tag}/none_is_leaf', '')
     return True
+
+
+class _Holder:
+    """custom-node metadata whose repr prints the treespec that holds it"""
+    spec = None
+
+    def __repr__(self):
+        return f'Holder<{self.spec!r}>'
 
 
 class C08(runner.Prop):
@@ -78,6 +87,20 @@ class C08(runner.Prop):
             same_spec(ctx, 'transform/none', spec.transform(), spec)
             same_spec(ctx, 'transform/identity', spec.transform(lambda x: x, lambda x: x), spec)
             same_spec(ctx, 'transform/identity_node_only', optree.treespec_transform(spec, lambda x: x), spec)
+            # a treespec that (through its metadata) contains itself renders the inner occurrence as '...', every time
+            holder = _Holder()
+            try:
+                selfspec = optree.tree_structure(U.FN([t], holder), none_is_leaf=nil, namespace=U.NSF)
+                holder.spec = selfspec
+                plain = repr(optree.tree_structure(U.FN([t], "X"), none_is_leaf=nil, namespace=U.NSF))
+                want_self = plain.replace("FN['X']", 'FN[Holder<...>]', 1)
+                got_self = [repr(selfspec), str(selfspec), repr(selfspec)]
+                if any(g != want_self for g in got_self):
+                    ctx.fail('repr/self_reference', f'{got_self!r} expected {want_self!r}')
+            except RecursionError:
+                ctx.fail('repr/self_reference', 'RecursionError: the inner occurrence was not cut off')
+            finally:
+                holder.spec = None
             # each function is called once per node / per leaf, with one-level / leaf treespecs, and is applied also
             # when given alone: turning every internal node into a tuple of its children (the documented example)
             # keeps all counts and makes every path positional
